@@ -573,7 +573,7 @@ func (c *C09Case) followUp(w *pworld, res *NodeResult, tag string, spec FaultSpe
 		a, b, d := worlds[0], worlds[1], worlds[2]
 		for _, f := range []string{pNotebook, pHistory} {
 			if got := fileOf(a.disk, f); got != fileOf(b.disk, f) && got != fileOf(d.disk, f) {
-				return "leftover-leaks:" + spec.Kind, fmt.Sprintf("after fault %v the interrupted process left %d stray file(s); a later healthy `wtf %s` then wrote %s with %d bytes; it has %d bytes when the strays are removed first and %d bytes when the interrupted step had completed: a partial leftover of the interrupted write leaked into the file", spec, strays, strings.Join(args, " "), f, len(got), len(fileOf(b.disk, f)), len(fileOf(d.disk, f))), nil
+				return "leftover-leaks:" + spec.Kind, fmt.Sprintf("after fault %v the interrupted process left %d stray file(s); a later healthy `wtf %s` then wrote %s with %d bytes; it has %d bytes when the strays are removed first and %d bytes when the interrupted step had completed: a leftover of the interrupted process changed what a later healthy run writes", spec, strays, strings.Join(args, " "), f, len(got), len(fileOf(b.disk, f)), len(fileOf(d.disk, f))), nil
 			}
 		}
 	}
